@@ -579,12 +579,15 @@ type Dialer struct {
 	// Fail, if set, makes Dial return an error
 	Fail  bool
 	Dials int
+	// Addrs records the "network address" pairs the dialer was asked for
+	Addrs []string
 	mu    sync.Mutex
 }
 
 func (d *Dialer) Dial(network, address string) (net.Conn, error) {
 	d.mu.Lock()
 	d.Dials++
+	d.Addrs = append(d.Addrs, network+" "+address)
 	fail := d.Fail
 	d.mu.Unlock()
 	if fail {
@@ -661,4 +664,11 @@ func (d *DatagramDialer) Dial(network, address string) (net.Conn, error) {
 	l := NewDatagramLink(id)
 	d.Ln.Push(l.B)
 	return l.A, nil
+}
+
+// Requested returns a copy of the addresses this dialer was asked to connect to.
+func (d *Dialer) Requested() []string {
+	d.mu.Lock()
+	defer d.mu.Unlock()
+	return append([]string(nil), d.Addrs...)
 }
